@@ -10,6 +10,10 @@ commands a recording `IProvider` received.  Positions are float bit patterns; ge
 multiples of 1/8 below 2^7 and tolerances are dyadic, so every squared distance and the comparison with
 `tolerance ** 2` is exact in IEEE doubles (boundary cases are decided exactly, not within an epsilon).
 
+A case with `"usage"` is a single-plugin history on a plugin used in a way the stock classes never produce:
+`{"provider": {"sync": k}}` / `{"provider": {"failAt": [j…]}}` (see `_UsageProvider`) or `{"chain": [leg…]}` (see
+`_QueuePlugin`).  These cases have no model run; the oracle judges them.
+
 A fleet case (`"members": [{loop, tol, speed}…]`, ops `[who, op]`) is the same with several plugins alive in
 the same process, each on its own protocol and provider, their calls interleaved (the nodes of one simulation).
 The property speaks about each plugin: every member must behave as its own calls alone dictate, and a call
@@ -87,6 +91,55 @@ class _RecProvider(IProvider):
 
     def get_id(self):
         return 0
+
+
+class _BackendDown(ConnectionError):
+    """what a `_UsageProvider` raises for a command it was told to fail on"""
+
+
+class _UsageProvider(_RecProvider):
+    """A back-end written against the public `IProvider` interface that behaves in one of two ways the project's
+    own providers never do (nothing in the interface forbids either):
+    `sync: k`    - a move is carried out at once: the arrival telemetry (standing exactly on the goto's target) is
+                   handed to the protocol's `handle_telemetry` from INSIDE `send_mobility_command`, for the first k
+                   gotos of every call the harness makes (afterwards the command is only recorded);
+    `failAt: [j…]` - the j-th mobility command of the history (0-based, gotos and set-speeds counted alike) is not
+                   accepted: `send_mobility_command` raises (a `ConnectionError`), the caller catches it."""
+
+    def __init__(self, usage):
+        super().__init__()
+        self.sync = int(usage.get("sync", 0))
+        self.fail_at = set(usage.get("failAt", []))
+        self.n_mob = 0
+        self.budget = 0
+        self.nested = []
+        self.proto = None
+
+    def send_mobility_command(self, command):
+        j = self.n_mob
+        self.n_mob += 1
+        if j in self.fail_at:
+            raise _BackendDown(f"mobility command #{j} was not accepted")
+        super().send_mobility_command(command)
+        if command.command_type == MobilityCommandType.GOTO_COORDS and self.budget > 0:
+            self.budget -= 1
+            pos = (command.param_1, command.param_2, command.param_3)
+            self.nested.append([_fb(x) for x in pos])
+            self.proto.handle_telemetry(Telemetry(current_position=pos))
+
+
+class _QueuePlugin(MissionMobilityPlugin):
+    """A mission queue built the way the class invites it (public method overridden in a subclass): whenever a
+    mission stops - by request or because its last waypoint was reached - the next leg, if any, is started."""
+
+    def __init__(self, protocol, configuration, legs):
+        super().__init__(protocol, configuration)
+        self.legs = [[bitsv3(p) for p in leg] for leg in legs]
+
+    def stop_mission(self):
+        super().stop_mission()
+        if self.legs:
+            self.start_mission(self.legs.pop(0))
 
 
 class _RecProtocol(IProtocol):
@@ -182,6 +235,8 @@ def _call(plugin, proto, op, mission_of=None, files=None):
             raise ValueError(f"unknown op {name}")
     except MissionMobilityPluginException:
         return "refused"
+    except _BackendDown:            # the back-end refused a command and the caller caught that
+        return "backend-failed"
     except Exception as e:          # no counterpart in the property: recorded, judged by the oracle
         return "crash:" + type(e).__name__
     except SystemExit:              # the file loader calls exit(1) on a file it cannot read
@@ -235,7 +290,7 @@ class _Fresh:
 
     @staticmethod
     def _line(case):
-        slim = {k: v for k, v in case.items() if k in ("kind", "loop", "tol", "speed", "members", "share", "ops")}
+        slim = {k: v for k, v in case.items() if k in ("kind", "loop", "tol", "speed", "members", "share", "ops", "usage")}
         return json.dumps(slim, separators=(",", ":")) + "\n"
 
     @classmethod
@@ -313,18 +368,24 @@ def run_impl(case):
         return run_impl_fleet(case)
     _gc_hygiene()
     files = _Files()
-    prov = _RecProvider()
+    usage = case.get("usage") or {}
+    prov = _UsageProvider(usage["provider"]) if "provider" in usage else _RecProvider()
     proto = _RecProtocol.instantiate(prov)
+    prov.proto = proto
     cfg = MissionMobilityConfiguration(speed=bitsf(case["speed"]), loop_mission=LoopMission[case["loop"]],
                                        tolerance=bitsf(case["tol"]))
-    plugin = MissionMobilityPlugin(proto, cfg)
+    plugin = _QueuePlugin(proto, cfg, usage["chain"]) if "chain" in usage else MissionMobilityPlugin(proto, cfg)
     results = []
-    enum = case.get("label") == "enum" and not _IN_CHILD
+    enum = case.get("label") == "enum" and not _IN_CHILD and not usage
     try:
         for op in case["ops"]:
             n0 = len(prov.cmds)
+            if usage:
+                prov.budget, prov.nested = getattr(prov, "sync", 0), []
             out = _call(plugin, proto, op, files=files)
             r = {"out": out, **_status(plugin), "cmds": prov.cmds[n0:]}
+            if getattr(prov, "nested", None):
+                r["nested"] = prov.nested
             results.append(_shared(r) if enum else r)
     finally:
         files.close()
@@ -424,9 +485,11 @@ class Spec:
     """expected status of the plugin along a history (used by the generator to aim telemetry and by the
     oracle to know whether a mission is active)"""
 
-    def __init__(self, loop, tol_bits):
+    def __init__(self, loop, tol_bits, queue=None):
         self.loop, self.tol = loop, tol_bits
         self.m, self.wp, self.rev = None, None, False
+        self.queue = [list(leg) for leg in (queue or [])]     # legs a mission-queue subclass starts when a mission stops
+        self.chained = False                                  # the last call made the queue start its next leg
 
     def target(self):
         return self.m[self.wp] if self.m is not None else None
@@ -434,12 +497,28 @@ class Spec:
     def set(self, nxt):
         if nxt is None:
             self.m, self.wp, self.rev = None, None, False
+            if self.queue:
+                self.m, self.wp, self.chained = self.queue.pop(0), 0, True
         else:
             self.wp, self.rev = nxt
+
+    def apply_sync(self, op, budget):
+        """`apply` under a back-end that completes the first `budget` gotos of a call at once (arrival telemetry on
+        the target from inside the command): the positions it will report"""
+        m0, wp0 = self.m, self.wp
+        want, stepped = self.apply(op)
+        nested = []
+        moved = want == "ok" and (op[0] in STARTS or op[0] == "setWaypoint" or stepped)
+        while moved and self.m is not None and budget > 0:
+            budget -= 1
+            nested.append(list(self.target()))
+            moved = self.apply(["telemetry", nested[-1]])[1]
+        return nested
 
     def apply(self, op):
         """returns what the call must do: 'ok' | 'refused', and whether a waypoint step happened"""
         name = op[0]
+        self.chained = False
         if name in STARTS:              # startFile: the mission is what the file says
             self.m, self.wp, self.rev = list(op[1]), 0, False
             return "ok", False
@@ -505,18 +584,25 @@ def oracle_fleet(case, impl):
 def oracle(case, impl, idx=None, tag=""):
     """C16 evaluated on the implementation's observations.  Signatures, most specific first."""
     if not in_domain(case):
-        return []           # empty missions are outside the property's quantifier (domain note in DESIGN.md)
+        # empty missions are outside the quantifier of the mission clauses (domain note in DESIGN.md); the clause
+        # about the three status flags among themselves names no mission and is evaluated all the same
+        fails = []
+        for k, (o, r) in enumerate(zip(case["ops"], impl["results"])):
+            fails += flag_clauses(_Where(k, o[1] if "members" in case else o, f" on plugin #{o[0]}:" if "members" in case else ""), r)
+        return _first_of_each(fails)
     if "members" in case:
         return oracle_fleet(case, impl)
     fails = []
-    spec = Spec(case["loop"], case["tol"])
+    usage = case.get("usage") or {}
+    spec = Spec(case["loop"], case["tol"], usage.get("chain"))
     speed = case["speed"]
     last_goto = None
     prev = {"wp": None, "reversed": False, "idle": True}
+    degraded = False      # a command was refused by the back-end in the middle of a call: which mission state the call
+                          # should have left is not for the property to say; until the next completed stop / start only
+                          # the clause about the flags among themselves is evaluated
     for k, (op, r) in enumerate(zip(case["ops"], impl["results"])):
         where = _Where(idx[k] if idx is not None else k, op, tag)
-        was_active, m0, wp0, rev0 = spec.m is not None, spec.m, spec.wp, spec.rev
-        want, stepped = spec.apply(op)
         for c in r["cmds"]:
             if c[0] == "goto":
                 last_goto = c[1]
@@ -524,6 +610,20 @@ def oracle(case, impl, idx=None, tag=""):
         state = {"wp": wp, "reversed": rev, "idle": idle}
         if r["out"].startswith("crash"):
             fails.append((f"C16:{r['out']}", f"{where} raised {r['out'][6:]}"))
+        if r["out"] == "backend-failed":
+            degraded = True
+        elif degraded and r["out"] == "ok" and (op[0] == "stop" or op[0] in STARTS):
+            degraded = False
+        if degraded:
+            fails += flag_clauses(where, r, " (a command of an earlier or this call was not accepted by the back-end)")
+            prev = state
+            continue
+        was_active, m0, wp0, rev0 = spec.m is not None, spec.m, spec.wp, spec.rev
+        want, stepped = spec.apply(op)
+        chained = spec.chained
+        for p in r.get("nested", []):       # arrivals the back-end reported from inside this call's commands, in order
+            spec.apply(["telemetry", p])
+            chained = chained or spec.chained
         # while a mission is active: valid index, not idle, last goto is that waypoint
         if spec.m is not None:
             n = len(spec.m)
@@ -537,10 +637,7 @@ def oracle(case, impl, idx=None, tag=""):
         elif not idle or wp is not None:
             fails.append(("C16:flags", f"after {where} no mission is active but is_idle={idle}, current_waypoint={wp!r}"))
         # the three flags among themselves
-        if idle != (wp is None):
-            fails.append(("C16:flags", f"after {where} is_idle={idle} with current_waypoint={wp!r}"))
-        if idle and rev:
-            fails.append(("C16:flags", f"after {where} is_reversed while idle"))
+        fails += flag_clauses(where, r)
         # what this call had to do
         if want == "refused":
             if r["out"] != "refused":
@@ -568,18 +665,40 @@ def oracle(case, impl, idx=None, tag=""):
             else:
                 exp = (wp0, rev0) if was_active else None
                 exp_cmds = []
+            if chained or r.get("nested"):
+                # the call went on inside its own commands (the queue started its next leg / arrivals were reported
+                # at once): where the mission stands after all of it; which commands that took is not prescribed
+                # beyond "the last goto is the current waypoint" above
+                exp = (spec.wp, spec.rev) if spec.m is not None else None
+                exp_cmds = None
+                stepped = True
             got = (wp, rev) if wp is not None else None
             if got != exp:
                 sig = {"start": "C16:start", "startFile": "C16:start", "stop": "C16:stop",
                        "setWaypoint": "C16:set-waypoint"}.get(name)
-                if sig is None:
+                if sig is None or chained or r.get("nested"):
                     sig = "C16:visit-order" if stepped else "C16:unreached-changed"
                 fails.append((sig, f"{where} in mode {case['loop']} from (waypoint {wp0}, reversed {rev0}) of "
                               f"{len(m0) if m0 else 0}: expected (waypoint, reversed) = {exp}, observed {got}"))
-            elif r["cmds"] != exp_cmds:
+            elif exp_cmds is not None and r["cmds"] != exp_cmds:
                 fails.append(("C16:commands", f"{where}: expected commands {cmds_text(exp_cmds)}, provider received {cmds_text(r['cmds'])}"))
         prev = state
-    # de-duplicate keeping order
+    return _first_of_each(fails)
+
+
+def flag_clauses(where, r, note=""):
+    """idle exactly when there is no current waypoint; never reversed while idle"""
+    wp, rev, idle = r["wp"], r["reversed"], r["idle"]
+    fails = []
+    if idle != (wp is None):
+        fails.append(("C16:flags", f"after {where}{note} is_idle={idle} with current_waypoint={wp!r}"))
+    if idle and rev:
+        fails.append(("C16:flags", f"after {where}{note} is_reversed while idle"))
+    return fails
+
+
+def _first_of_each(fails):
+    """de-duplicate by signature keeping order"""
     seen, out = set(), []
     for f in fails:
         if f[0] not in seen:
@@ -791,6 +910,70 @@ def gen_history(seed, max_ops=40):
     while len(ops) < n_ops:
         push(next_op(r, spec, style, n, tol))
     return {"kind": "mission", "loop": loop, "tol": fbits(tol), "speed": fbits(r.choice(SPEEDS)), "ops": ops}
+
+
+def gen_usage(seed, max_ops=30):
+    """one plugin used in a way the stock classes never produce (one of three, see `_UsageProvider`, `_QueuePlugin`):
+    sync  - the back-end completes the first k (1-6) gotos of every call at once and reports the arrival from inside
+            `send_mobility_command`; short missions, so that whole missions (NO: up to their end) unwind inside one
+            start_mission / set_current_waypoint / telemetry call;
+    fail  - the back-end does not accept 1-2 of the first mobility commands of the history (the first goto or the
+            set-speed of a start_mission among them), the caller catches the error and goes on, sooner or later with a
+            stop_mission or a new start_mission;
+    chain - a subclass whose stop_mission() starts the next of 1-3 queued legs; the legs are flown exactly or walked,
+            so that missions end by telemetry on their last waypoint as well as by request."""
+    r = random.Random(stable_hash("mission-usage", seed))
+    kind = r.choice(["sync", "fail", "chain"])
+    loop = r.choice(MODES + ["NO"] * (1 if kind == "fail" else 3))
+    tol = r.choice(TOLS)
+    n = r.choice([1, 1, 2, 2, 3, 4])
+    style = r.choice(["walk", "walk", "mixed", "abuse"])
+    usage, budget, queue = {}, 0, None
+    if kind == "sync":
+        budget = r.choice([1, 1, 2, 3, 4, 6])
+        usage["provider"] = {"sync": budget}
+    elif kind == "fail":
+        usage["provider"] = {"failAt": sorted(set(r.choice([0, 0, 1, 1, 2, 3, r.randint(2, 12)]) for _ in range(r.choice([1, 1, 2]))))}
+    else:
+        queue = [make_mission(r, r.choice([1, 2, 2, 3]), tol) for _ in range(r.randint(1, 3))]
+        usage["chain"] = queue
+    spec = Spec(loop, fbits(tol), queue)
+    n_ops = r.randint(2, max_ops)
+    ops = []
+
+    def push(op):
+        ops.append(op)
+        spec.apply_sync(op, budget)
+
+    if r.random() < 0.9:
+        push(["start", make_mission(r, n, tol)])
+    exact = kind == "chain" and r.random() < 0.5
+    while len(ops) < n_ops:
+        if exact and spec.m is not None and r.random() < 0.85:
+            push(["telemetry", list(spec.target())])
+        elif kind == "fail" and r.random() < 0.15:
+            push(r.choice([["stop"], ["start", make_mission(r, r.choice([1, 2, 3]), tol)]]))
+        else:
+            push(next_op(r, spec, style, n, tol))
+    return {"kind": "mission", "loop": loop, "tol": fbits(tol), "speed": fbits(r.choice(SPEEDS)), "usage": usage, "ops": ops}
+
+
+def usage_events(case, impl):
+    """what the usage shapes actually exercised (read off the observations)"""
+    ev = {}
+    usage = case.get("usage") or {}
+    legs = len(usage.get("chain", []))
+    for op, r in zip(case["ops"], impl["results"]):
+        if r.get("nested"):
+            ev["sync_calls_with_arrivals_inside"] = ev.get("sync_calls_with_arrivals_inside", 0) + 1
+            if r["wp"] is None:
+                ev["sync_mission_ended_inside_" + op[0]] = ev.get("sync_mission_ended_inside_" + op[0], 0) + 1
+        if r["out"] == "backend-failed":
+            ev["backend_failed_in_" + op[0]] = ev.get("backend_failed_in_" + op[0], 0) + 1
+        if legs and op[0] in ("telemetry", "stop") and len(r["cmds"]) >= 2 and any(c[0] == "setSpeed" for c in r["cmds"]):
+            key = "chain_next_leg_after_" + ("natural_end" if op[0] == "telemetry" else "stop_request")
+            ev[key] = ev.get(key, 0) + 1
+    return ev
 
 
 def gen_fleet(seed, max_ops=60):
@@ -1045,6 +1228,17 @@ class C16(Check):
             "calls over {own file again, set_current_waypoint(2), telemetry on target, stop} per member; the mission the oracle reads "
             "is the content of the file at the time of the call. Every history with a file-based start runs in a process of its own "
             "(forked from an interpreter that only imported the plugin), so its verdict depends on nothing but its calls. "
+            "Usage shapes (900, thorough 12000 histories of <= 30 calls on one plugin, judged by the oracle alone - the Lean model has "
+            "neither re-entrant commands nor subclasses): a back-end (an IProvider of the user) that completes the first 1-6 gotos of "
+            "every call at once and reports the arrival on the target from inside send_mobility_command, so that whole missions "
+            "(NO: up to their end) unwind inside one start_mission / set_current_waypoint / telemetry call - the arrivals it reported "
+            "are read as telemetry calls in that order and the status after the call must be where they lead; a back-end that raises "
+            "for 1-2 of the first mobility commands of the history (the goto or the set-speed of a start_mission among them), the "
+            "caller catching the error - from then until the next completed stop_mission / start_mission only 'idle exactly when "
+            "there is no current waypoint, never reversed while idle' is evaluated; a subclass whose stop_mission() calls "
+            "super().stop_mission() and starts the next of 1-3 queued legs, missions ending by telemetry on the last waypoint as "
+            "well as by request - the mission in progress is then the leg just started. The flag clause is also evaluated on "
+            "histories with an empty mission (otherwise outside the property's domain). "
             "non-trivial = the history contains a refused request AND (REVERSE: bounces at the last and at the first waypoint; "
             "RESTART: wraps from the last waypoint to the first; NO: runs to completion and is called again afterwards); "
             "fleet: at least two members step to / are set to a waypoint index >= 1 while another member has a mission in progress "
@@ -1063,6 +1257,8 @@ class C16(Check):
     thorough_n = 30000
     quick_fleets = 700
     thorough_fleets = 8000
+    quick_usage = 900
+    thorough_usage = 12000
     quick_files = (200, 250, 250)          # histories / fleets re-run with file-based starts, re-planning nodes
     thorough_files = (2000, 2000, 2000)
 
@@ -1076,6 +1272,12 @@ class C16(Check):
         for i in range(self.quick_fleets if tier == "quick" else self.thorough_fleets):
             h = gen_fleet(stable_hash("C16", "fleet", seed, i))
             h["label"] = f"fleet/{seed}/{i}"
+            yield h
+        # one plugin behind a back-end that completes moves at once / refuses a command, or subclassed into a
+        # mission queue (judged by the oracle alone: the Lean model has neither re-entrant commands nor subclasses)
+        for i in range(self.quick_usage if tier == "quick" else self.thorough_usage):
+            h = gen_usage(stable_hash("C16", "usage", seed, i))
+            h["label"] = f"usage/{seed}/{i}"
             yield h
         # missions loaded from waypoint files (each such case runs in a process of its own): the generated
         # shapes above with (some of) their starts made through files, several nodes each loading its own
@@ -1134,6 +1336,8 @@ class C16(Check):
                 yield gen_fleet(stable_hash("C16", "widen-fleet", seed, i))
             if i % 8 == 1:
                 yield gen_replan(stable_hash("C16", "widen-replan", seed, i))
+            if i % 2 == 1:
+                yield gen_usage(stable_hash("C16", "widen-usage", seed, i))
             if i % 8 == 5:
                 yield with_files(gen_fleet(stable_hash("C16", "widen-file-fleet", seed, i)),
                                  random.Random(stable_hash("C16", "widen-files", seed, i)), "all")
@@ -1142,6 +1346,8 @@ class C16(Check):
         return run_impl(case)
 
     def model_input(self, case, impl):
+        if case.get("usage"):
+            return None         # oracle only
         if "members" in case:
             return {"kind": "missionFleet", "members": case["members"], "ops": case["ops"]}
         return {"kind": "mission", "loop": case["loop"], "speed": case["speed"], "tol": case["tol"], "ops": case["ops"]}
@@ -1191,7 +1397,7 @@ class C16(Check):
     def key(self, case, impl):
         if "members" in case:
             return json.dumps([case["members"], case["ops"]])
-        return case["loop"] + case["tol"] + json.dumps(case["ops"])
+        return case["loop"] + case["tol"] + json.dumps(case["ops"]) + (json.dumps(case["usage"]) if case.get("usage") else "")
 
     def sample(self, case, impl):
         if "members" in case:
@@ -1238,6 +1444,10 @@ class C16(Check):
         for k, v in events(case, impl).items():
             if v:
                 inc("event_" + k, v)
+        if case.get("usage"):
+            inc("usage_histories")
+            for k, v in usage_events(case, impl).items():
+                inc("usage_" + k, v)
 
     def shrink(self, case, still_fails):
         fleet = "members" in case
@@ -1289,6 +1499,15 @@ class C16(Check):
                                 "calls": [f"plugin #{w}: {op_text(o)}" for w, o in best["ops"]]}
         else:
             best["readable"] = {"loop": best["loop"], "tolerance": bitsf(best["tol"]), "calls": [op_text(o) for o in best["ops"]]}
+            if best.get("usage"):
+                u = best["usage"]
+                best["readable"]["usage"] = (
+                    {"subclass": "stop_mission() overridden: super().stop_mission(), then start_mission(next queued leg)",
+                     "legs": [[pos_text(p) for p in leg] for leg in u["chain"]]} if "chain" in u else
+                    {"provider": "reports the arrival on the goto's target from inside send_mobility_command "
+                                 f"(first {u['provider']['sync']} gotos of each call)"} if "sync" in u["provider"] else
+                    {"provider": f"send_mobility_command raises ConnectionError for mobility command(s) #{u['provider']['failAt']} "
+                                 "of the history; the caller catches it"})
         return best
 
 
